@@ -3,9 +3,16 @@
    correlation rules) against the implementation's result, and the specification evaluated on the
    implementation's output using fresh single-rule conversions as the reference. *)
 From Coq Require Import NArith List Bool.
+From Coq Require String Ascii.
 From PS Require Import Base.Chars Base.Outcome Model.Collection Spec.Collection Run.Bits.
 Import ListNotations.
 Open Scope N_scope.
+
+(* compact encoding of ASCII strings in generated case files *)
+Declare Scope s8_scope.
+Delimit Scope s8_scope with s8.
+String Notation String.string String.string_of_list_byte String.list_byte_of_string : s8_scope.
+Definition Sx (s : String.string) : str := map Ascii.N_of_ascii (String.list_ascii_of_string s).
 
 Record dr := { d_raw : outcome (list str);   (* pipeline + conditions + finish_query, from the rule source *)
                d_finfail : bool }.           (* a post-processing item rejects this rule's queries *)
